@@ -73,8 +73,10 @@ def materialise(d, model):
     for i, (code, out) in enumerate(res):
         open(os.path.join(bind, 'out%d' % i), 'wb').write(out)
         open(os.path.join(bind, 'code%d' % i), 'w').write(str(code))
+    for i, nb in enumerate(d.get('stderr_results', [])):
+        open(os.path.join(bind, 'err%d' % i), 'wb').write(b'e' * nb)
     script = '#!/bin/sh\nD=%s\nN=$(cat $D/counter 2>/dev/null || echo 0)\necho $((N+1)) > $D/counter\necho "$0 $@" >> $D/calls\n' \
-             '[ -f $D/out$N ] && cat $D/out$N\n[ -f $D/code$N ] && [ "$(cat $D/code$N)" = None ] && kill -9 $$\n' \
+             '[ -f $D/out$N ] && cat $D/out$N\n[ -f $D/err$N ] && cat $D/err$N >&2\n[ -f $D/code$N ] && [ "$(cat $D/code$N)" = None ] && kill -9 $$\n' \
              '[ -f $D/code$N ] && exit $(cat $D/code$N)\nexit 0\n' % bind
     for c in ('c1', 'c2'):
         p = os.path.join(bind, c)
